@@ -291,6 +291,12 @@ class GuardDefinition:
                     or self.params.get("children")
                     or []
                 )
+                if not isinstance(children_cfg, (list, tuple)):
+                    raise InvalidConfigError(
+                        f"❌ Guard '{guard_type}' has nested guards of type "
+                        f"{type(children_cfg).__name__} in 'params'; "
+                        "expected a list of guards."
+                    )
             if not children_cfg and self.type in COMPOSITE_GUARD_TYPES:
                 # `not` is commonly written {"type": "not", "params": {...}}
                 # with a single nested guard.
